@@ -38,6 +38,29 @@ Theorem C18_malformed_is_refused : forall m a,
   malformed a = true -> exists s, respond m a = Resp s true /\ 400 <= s < 500.
 Proof. exact malformed_is_refused. Qed.
 
+(* Known finding K18.  On the wire a request can also be malformed in the
+   framing of its body; hyper decodes a body lazily, so dropshot notices only
+   if its extractor reads the body.  The full-strength statement — every
+   request that is malformed on the wire is refused — is FALSE of the code and
+   of its model: *)
+Definition C18_wire_malformed_full_statement : Prop := forall m fr a,
+  framing_consistent fr a = true -> handler_wf (a_handler a) = true ->
+  wire_malformed fr a = true ->
+  exists s fw, respond m a = Resp s fw /\ 400 <= s < 600.
+
+Theorem C18_K18_refuted : forall m,
+  exists fr a, framing_consistent fr a = true /\ handler_wf (a_handler a) = true /\
+               wire_malformed fr a = true /\ respond m a = Resp 200 false.
+Proof. exact k18_refuted. Qed.
+
+(* ... and it holds outside the class (invalid body framing on a request whose
+   endpoint does not read the body) *)
+Theorem C18_wire_malformed_refused_outside_K18 : forall m fr a,
+  framing_consistent fr a = true -> k18_class fr a = false ->
+  wire_malformed fr a = true ->
+  exists s, respond m a = Resp s true /\ 400 <= s < 500.
+Proof. exact wire_malformed_refused_outside_k18. Qed.
+
 (* a well-formed, routed request gets exactly what its handler produces *)
 Theorem C18_wellformed_reaches_handler : forall m a,
   malformed a = false -> a_route a = RouteFound ->
@@ -230,6 +253,8 @@ Proof. vm_compute. repeat split. Qed.
 
 Print Assumptions C18_respond_total.
 Print Assumptions C18_malformed_is_refused.
+Print Assumptions C18_K18_refuted.
+Print Assumptions C18_wire_malformed_refused_outside_K18.
 Print Assumptions C18_wellformed_reaches_handler.
 Print Assumptions C18_respond_mode_independent.
 Print Assumptions C18_faults_are_local.
